@@ -148,6 +148,22 @@ type merged struct {
 	inconcl  []string
 	workers  int
 	crashes  int
+	restarts int // workers restarted after an aborted or fatal case (whole run)
+	budget   int // bound on restarts: a tree on which very many cases hang or crash must not keep the check running for hours
+	dropped  int // cases not run because the restart budget was used up
+}
+
+// mayRestart consumes one unit of the restart budget; when it is used up the rest of the batch is dropped (and the run
+// can no longer be "held": it is violated if something was found, inconclusive otherwise).
+func (m *merged) mayRestart(from, to int) bool {
+	m.mu.Lock()
+	defer m.mu.Unlock()
+	if m.restarts >= m.budget {
+		m.dropped += to - from
+		return false
+	}
+	m.restarts++
+	return true
 }
 
 func drive(p *Property, tier string, seed int64, racebin string, verbose bool) int {
@@ -190,7 +206,10 @@ func drive(p *Property, tier string, seed int64, racebin string, verbose bool) i
 		timeout = p.WorkerTimeoutS(tier)
 	}
 
-	m := &merged{counters: map[string]int64{}, distinct: map[string]struct{}{}}
+	m := &merged{counters: map[string]int64{}, distinct: map[string]struct{}{}, budget: 64}
+	if tier == "thorough" {
+		m.budget = 1500
+	}
 	queue := make(chan batch, nb*64+16)
 	var pending sync.WaitGroup
 	for b := 0; b < nb; b++ {
@@ -351,7 +370,7 @@ func runBatchRace(p *Property, tier string, seed int64, bin, tmp string, id int,
 	os.Remove(evf)
 	if summary && werr == nil {
 		os.Remove(errf)
-		if aborted >= 0 && aborted+1 < b.to && b.restarts < 200 {
+		if aborted >= 0 && aborted+1 < b.to && b.restarts < 200 && m.mayRestart(aborted+1, b.to) {
 			return &batch{from: aborted + 1, to: b.to, restarts: b.restarts + 1}
 		}
 		return nil
@@ -382,7 +401,12 @@ func runBatchRace(p *Property, tier string, seed int64, bin, tmp string, id int,
 	m.viols = append(m.viols, violation{Property: p.ID, Tier: tier, Seed: seed, Case: lastBegin.ID, Sig: sig, Key: key, Desc: lastBegin.Desc,
 		Detail: mustJSON(fmt.Sprintf("worker died (%v) while running this case", werr)), Stderr: firstLines(stderr, 40)})
 	if lastBegin.ID+1 < b.to && b.restarts < 200 {
-		return &batch{from: lastBegin.ID + 1, to: b.to, restarts: b.restarts + 1}
+		m.mu.Unlock()
+		ok := m.mayRestart(lastBegin.ID+1, b.to)
+		m.mu.Lock()
+		if ok {
+			return &batch{from: lastBegin.ID + 1, to: b.to, restarts: b.restarts + 1}
+		}
 	}
 	return nil
 }
@@ -523,6 +547,11 @@ func loadKnown() []knownLine {
 }
 
 func report(p *Property, tier string, seed int64, m *merged, wall float64) int {
+	if m.dropped > 0 {
+		m.counters["cases_dropped_after_restart_budget"] = int64(m.dropped)
+		m.inconcl = append(m.inconcl, fmt.Sprintf("%d workers had to be restarted after hanging or fatal cases; the restart budget was used up and %d cases were not run", m.restarts, m.dropped))
+	}
+	m.counters["worker_restarts"] = int64(m.restarts)
 	known := loadKnown()
 	isKnown := func(key string) *knownLine {
 		if key == "" {
